@@ -1,11 +1,15 @@
 """C07 / C08: tulz::ThreadPool (+ tulz::Thread) under the controlled scheduler, lock-step against the Lean model
-(Tulz/Model/Pool.lean, namespace TPool), with direct trace monitors for every clause of the two properties."""
+(Tulz/Model/Pool.lean, namespace TPool), with direct trace monitors for every clause of the two properties.
+Second part of every run (components/poolx.py): the same pool WITH expiring workers and update() under a virtual clock
+(harness/pool/poolx_harness.cpp), lock-step against Tulz/Model/PoolX.lean (namespace TPoolX, theorems C07X_* / C08X_*)."""
 import json
 import os
+import threading
 
 import lib
 import schedtie
 from lib import Failure, TieResult
+from components import poolx
 
 HARNESS = "harness/pool/pool_harness.cpp"
 REPO_SRC = ["src/threading/ThreadPool.cpp", "src/threading/Thread.cpp", "src/threading/Runnable.cpp"]
@@ -16,32 +20,39 @@ TB = [
     "hand transcription of ThreadPool.cpp / Thread.cpp into 16 step kinds; std::list as a FIFO list; `delete` as an event; the spawn condition `getActiveThreadCount() == getThreadCount()` is dropped because it is invariantly true for non-expiring workers (every pool thread is unfinished while the pool is running)",
     "the number of worker threads ever created and the task ids are unbounded Nat",
     "the tie is by exploration: controlled-scheduler executions of the real ThreadPool.cpp are replayed step by step on the model (every critical section, notification, join and task event must match)",
+    "expiring workers / update() (theorems *X, model Tulz/Model/PoolX.lean, 24 step kinds + spurious wake-up + clock tick at any moment): the CLOCK is modelled, not verified — "
+    "a natural number of milliseconds that never decreases, read once per evaluation of the wait predicate atomically with the worker's m_queueMutex critical section, once at thread "
+    "creation and once when a task body returns; `time() - last > timeout` is written `timeout + last < now` (no int64 overflow). In the harness std::chrono::system_clock is token-remapped to a "
+    "virtual clock that only the owner script advances (`t<ms>`, while holding m_queueMutex so that clock reads and advances are ordered like the critical sections): real-time behaviour of "
+    "system_clock (jumps backwards, resolution) is outside the tie. Thread::m_isFinished is a separate step (`exited` -> `finished`); join returns only after it (std::thread::join modelled)",
+    "expiring workers: the *X theorems are safety theorems (bound, ownership, quiescent state after stop(), progress inside stop()); the liveness results (every run finite, restart runs the task) remain those of the non-expiring model",
 ]
-ASSUME = ["non-expiring workers (setExpiryTimeout(-1)); update() is not called",
-          "one owner thread issues start/clear/stop; tasks do not call the pool",
-          "task bodies terminate", "the owner submits distinct task objects", "max >= 1 and constant during a run",
-          "fair scheduler for liveness"]
+ASSUME = ["C07_*/C08_* (model TPool): non-expiring workers (setExpiryTimeout(-1)), update() is not called, max >= 1; "
+          "C07X_*/C08X_* (model TPoolX): any expiry timeout (negative = none), update() and clock ticks anywhere, max >= 0",
+          "one owner thread issues start/clear/stop/update and the getters; tasks do not call the pool",
+          "task bodies terminate", "the owner submits distinct task objects", "max and the expiry timeout are constant during a run",
+          "fair scheduler for liveness", "the clock never goes backwards"]
 
 PROPS = {
     "C07": {
         "design_ref": "6.5/C07",
-        "lean_modules": ["Tulz.Props.C07"],
-        "theorems": ["TPool.C07_run_at_most_once", "TPool.C07_destroy_at_most_once", "TPool.C07_owned", "TPool.C07_destroy_after_run",
+        "lean_modules": ["Tulz.Props.C07", "Tulz.Props.C08X"],
+        "theorems": ["TPoolX.C07X_ownership", "TPoolX.xstep?_sound", "TPool.C07_run_at_most_once", "TPool.C07_destroy_at_most_once", "TPool.C07_owned", "TPool.C07_destroy_after_run",
                      "TPool.C07_fifo", "TPool.C07_single_worker", "TPool.C07_no_run_after_stop", "TPool.C07_progress",
                      "TPool.C07_quiescent", "TPool.C07_every_run_finishes", "TPool.xstep?_sound", "TPool.xstep?_complete"],
         "technique": "Lean 4 inductive-invariant proofs over a transition system (owner program of start/clear/stop incl. restart, any max >= 1, any number of tasks, every interleaving, critical-section granularity) + strictly decreasing measure + lock-step replay of controlled-scheduler executions of the real ThreadPool.cpp on the model",
         "level_text": "Machine-checked proof, for every owner program of start/clear/stop operations on distinct tasks, every max >= 1 and every interleaving (spurious wake-ups included), that every submitted task is in exactly one place (queued / in one worker's hands / destroyed), is run at most once and destroyed at most once, never before or during its run; tasks are dequeued in submission order and with max = 1 only one worker is alive; nothing starts after stop() returned until the next start; a queued task always has an enabled step that leads to it (no lost task); every run is finite (natural-number measure) and in a state with no enabled step every task has been destroyed exactly once and every task not dropped by a clear()/stop() was run exactly once. The model is tied to ThreadPool.cpp by replaying every scheduler-observed critical section / notification / join / task event of the real code on the executable step function (proved sound and complete for the step relation) and by direct trace monitors of every clause on the same executions (plus ASan for use of a deleted task).",
-        "level_note": "Trusted: Lean kernel; transcription of ThreadPool.cpp at critical-section granularity (repaired stop()); pthread semantics; DRF (C15); schedule exploration only validates the tie (corpus + DFS with bounded preemptions on small scripts + seeded random schedules). Expiring workers and update() are outside the statement and the model.",
+        "level_note": "Trusted: Lean kernel; transcription of ThreadPool.cpp at critical-section granularity (repaired stop()); pthread semantics; DRF (C15); schedule exploration only validates the tie (corpus + DFS with bounded preemptions on small scripts + seeded random schedules). Expiring workers and update(): the safety part (each task in exactly one place, at most one run, destroyed after its run or dropped) is proved on the extended model TPoolX (C07X_ownership) and tied by the same lock-step replay with a virtual clock; FIFO/progress/termination theorems are for non-expiring workers.",
         "trusted_base": TB, "assumptions": ASSUME,
     },
     "C08": {
         "design_ref": "6.5/C08",
-        "lean_modules": ["Tulz.Props.C08"],
-        "theorems": ["TPool.C08_max", "TPool.C08_stop_progress", "TPool.C08_stop_measure", "TPool.C08_stop_returns", "TPool.C08_after_stop",
+        "lean_modules": ["Tulz.Props.C08", "Tulz.Props.C08X"],
+        "theorems": ["TPoolX.C08X_pool_bounded", "TPoolX.C08X_stop_quiescent", "TPoolX.C08X_stop_progress", "TPoolX.C07X_ownership", "TPoolX.xstep?_sound", "TPool.C08_max", "TPool.C08_stop_progress", "TPool.C08_stop_measure", "TPool.C08_stop_returns", "TPool.C08_after_stop",
                      "TPool.C08_stopped_state", "TPool.C08_restart", "TPool.xstep?_sound", "TPool.xstep?_complete"],
         "technique": "Lean 4 inductive invariant (flag write and predicate evaluation exclude each other => nobody parked un-notified once stop() has notified) + progress + strictly decreasing measure inside stop() + restart lemma, any program / max / interleaving; lock-step replay and deadlock detection on the real code, whose cv.wait entry point is exactly the evaluated-but-not-blocked window",
         "level_text": "Machine-checked proof that the pool never holds more than max threads and every live worker is in the pool; that while the owner is inside stop() some step is always enabled and every step of any thread (spurious wake-ups included) strictly decreases a natural-number measure, so stop() returns in every fair interleaving whatever the workers were doing (idle, evaluated the predicate but not yet blocked, waking up, running a task); that on return the pool is empty, every worker thread has exited (no task running), the queue is empty and every task still queued was destroyed, and that this persists until the next start; and that a start after a stop spawns a fresh worker that can take the task at once, with every run finite and the task run exactly once unless a later clear()/stop() drops it. Tied to ThreadPool.cpp by lock-step replay, the scheduler's deadlock detector around stop() and trace monitors (getThreadCount() == 0, no task event after stop, all spawned threads exited and joined, live workers <= max, restart spawns).",
-        "level_note": "Trusted: as C07. The theorems are about the REPAIRED stop() (finding F6: flag written under m_queueMutex); the unrepaired code deadlocks in the window the scheduler exposes.",
+        "level_note": "Trusted: as C07. With expiring workers and update() (model TPoolX, virtual clock): pool.length <= max, every thread outside the pool has completed, stop() leaves pool = [] / every worker ever created completed / queue empty / every submitted task destroyed, and stop() always has an enabled step (C08X_*); that stop() returns in every fair run and the restart liveness are proved for non-expiring workers only. The theorems are about the REPAIRED stop() (finding F6: flag written under m_queueMutex); the unrepaired code deadlocks in the window the scheduler exposes.",
         "trusted_base": TB, "assumptions": ASSUME,
     },
 }
@@ -453,6 +464,9 @@ def load_corpus():
 def run_tie(prop, spec, tier, seed):
     res = TieResult()
     rng = lib.SplitMix(seed).fork("pool")
+    # the expiring-worker harness is a second binary: compile it while the first one builds and runs (cached by content hash)
+    xbuild = threading.Thread(target=poolx.build)
+    xbuild.start()
     binary, out = schedtie.build("pool_harness", HARNESS, REPO_SRC)
     if binary is None:
         res.failures.append(Failure("infra", "harness does not compile against the working tree", replay={"compiler": out[-3000:]}))
@@ -575,6 +589,23 @@ def run_tie(prop, spec, tier, seed):
                                             replay={"correspondence": "pool lock-step replay", "run": r.line, "schedule": r.choices(), "events": r.events,
                                                     "mismatch": bad}))
     res.extra["model_mismatches"] = nmm
+    # expiring workers + update() under a virtual clock (model TPoolX)
+    xbuild.join()
+    xr = poolx.run(prop, tier, rng.fork("poolx"), res, batch, dfs)
+    if xr is not None:
+        res.evaluations += xr["executed"]
+        res.traces += xr["executed"]
+        res.distinct += xr["distinct"]
+        res.rule += ("; PLUS expiring workers: the real ThreadPool.cpp with setExpiryTimeout(T), update() and a virtual clock (harness/pool/poolx_harness.cpp): DFS with <=%d preemptions over %s "
+                     "(%d executions, %s) + %d seeded random schedules of random scripts over s/f/g/l/c/x/w/u/t<ms>/z with max 0-3 and timeout in {-1,0,3,5,10} "
+                     "(shapes: idle past the timeout -> update() wakes -> worker retires -> update() reaps or stop() before the reap -> restart with >= max submissions; clock advances between submissions; "
+                     "expiry with a non-empty queue; update() with a negative timeout), each replayed lock-step on TPoolX.xstep?; distinct_nontrivial adds the distinct (script, step sequence) in which a worker expired" %
+                     (xr["dfs_bound"], xr["dfs_cfgs"], xr["dfs_executions"], "complete within the bound" if xr["dfs_complete"] else "budget-limited", xr["random_executions"]))
+        res.dist["expiry"] = {k: xr[k] for k in ("status", "ops", "features", "dfs_executions", "random_executions", "skipped_after_crashes")}
+        if xr["sample"]:
+            res.samples = res.samples[:2] + [xr["sample"]]
+        res.extra["monitor_violations"] += xr["monitor_violations"]
+        res.extra["model_mismatches"] += xr["model_mismatches"]
     return res
 
 
@@ -584,6 +615,11 @@ def replay(prop, spec, path):
     if "cfg" not in rp:
         print(json.dumps(data, indent=1)[:4000])
         return 0
+    if rp.get("harness") == "poolx":
+        rc = poolx.replay(prop, rp)
+        if rc == 1:
+            print("VIOLATION property=%s replay=%s" % (prop, path))
+        return rc
     binary, out = schedtie.build("pool_harness", HARNESS, REPO_SRC)
     if binary is None:
         print(out[-3000:])
